@@ -102,8 +102,14 @@ theorem C19_validate_spec (s : Str) (strict : Bool) (t : Str) :
           exact absurd ⟨p', h3.symm⟩ hl
 
 /-- **Everything else is rejected with `BadTypeInNameException` and no other error** (in particular
-never `IndexError`: the model's indexing `s[0]`, `s[-1]`, `pop()` are partial operations) -/
-theorem C19_only_badtype (s : Str) (strict : Bool) (e : PyExc) (h : serviceTypeName s strict = .error e) :
+never `IndexError`: the model's indexing `s[0]`, `s[-1]`, `pop()` are partial operations).
+
+`_partial`: proved for every string of Unicode scalar values (`List Char`), i.e. every `str` that is Unicode
+text.  Missing: a Python `str` can also hold lone surrogates, which `Char` cannot represent; there the real
+code raises `UnicodeEncodeError` from `remaining[0].encode('utf-8')` (known finding
+`C19:name-raises-UnicodeEncodeError:lone-surrogate`, reported by the harness, stage O).  The same domain
+restriction applies to every theorem of this file. -/
+theorem C19_only_badtype_partial (s : Str) (strict : Bool) (e : PyExc) (h : serviceTypeName s strict = .error e) :
     e = .badType := by
   have fin : ∀ {c : Prop} {_ : Decidable c} {t : Str}, (if c then Except.ok t else Except.error PyExc.badType) = Except.error e → e = .badType := by
     intro c _ t h; split at h
@@ -134,7 +140,7 @@ theorem C19_accept_or_badtype (s : Str) (strict : Bool) :
   | .ok t => exact Or.inl ⟨t, rfl, (C19_validate_spec s strict t).1 h⟩
   | .error e =>
     right
-    refine ⟨by rw [C19_only_badtype s strict e h], fun t ht => ?_⟩
+    refine ⟨by rw [C19_only_badtype_partial s strict e h], fun t ht => ?_⟩
     rw [(C19_validate_spec s strict t).2 ht] at h; cases h
 
 /-- the service type is determined by the name -/
@@ -195,7 +201,7 @@ theorem C19_constructor (type_ name : Str) :
       · intro h2; cases h2
       · rintro ⟨t', ht', _⟩
         rw [(C19_validate_spec name false t').2 ht'] at h; cases h
-    · intro e' h2; injection h2 with h2; rw [← h2]; exact C19_only_badtype name false e h
+    · intro e' h2; injection h2 with h2; rw [← h2]; exact C19_only_badtype_partial name false e h
 
 /-! ### the two repaired defects, on the model (which follows the working tree) -/
 
